@@ -23,6 +23,9 @@ def declare(rep):
     rep.rule("C16.number-format", "the writer's coordinate format only produces tokens the reader's number regex matches entirely", floor=1)
     rep.rule("C16.declared-counts", "declared counts (points, per-cell integers, cells, cell types, field length) agree with what the loops emit", floor=5)
     rep.rule("C16.reader-conventions", "the reader requires cell type 42 and takes the first integer of a record as its length", floor=2)
+    rep.rule("C16.compact-before-count", "the cells are compacted (rebase) before any count, offset or coordinate is taken from them", floor=1)
+    rep.rule("C16.no-narrowing", "the coordinate handed to the formatter is the double itself (no narrowing conversion)", floor=1)
+    rep.rule("C16.array-extent", "every array the reader extracts ends at the next keyword (letters) or the end of file - the writer wraps arrays over several lines", floor=4)
 
 
 def template(fn, e, depth=0):
@@ -145,6 +148,9 @@ def run(rep, prog, tier):
     number_format(rep, prog, rx_pos, r_pos)
     declared_counts(rep, prog, wfile, wcell, warr)
     reader_conventions(rep, prog, r_faces)
+    compact_before_count(rep, prog, wfile)
+    no_narrowing(rep, prog)
+    array_extent(rep, prog, [("POINTS", r_pos), ("CELL_TYPES", r_faces), ("CELLS", r_faces), ("ell_type_id", r_types)], warr)
 
 
 def number_format(rep, prog, rx_pos, r_pos):
@@ -258,3 +264,92 @@ def reader_conventions(rep, prog, r_faces):
         rep.ok("C16.reader-conventions", prog, r_faces, cmp_[0], "reader checks that a record holds as many integers as its first integer declares")
     else:
         rep.violation("C16.reader-conventions", prog, r_faces, None, "record length not verified", "read_cell_faces must compare the declared record length with the integers actually read")
+
+
+def compact_before_count(rep, prog, wfile):
+    fi = prog.index(wfile)
+    reb = [n for n in walk(wfile["body"]) if is_call(n) and n.get("callee") == "cell::rebase"]
+    if len(reb) != 1:
+        raise AnalysisBroken("write_cell_data_file(ofstream&, vector<cell_ptr>&, bool): %d calls of cell::rebase" % len(reb))
+    # the top-level statement holding the rebase
+    stmts = wfile["body"].get("c", [])
+    def top_of(n):
+        for i, s_ in enumerate(stmts):
+            if any(x is n for x in walk(s_)):
+                return i
+        return None
+    ri = top_of(reb[0])
+    # before the compaction nothing may be taken from the cells: no statement may mention the cell list except for its size
+    plist = [p_ for p_ in wfile["params"] if "vector" in p_["t"] and "cell" in p_["t"]]
+    if len(plist) != 1:
+        raise AnalysisBroken("write_cell_data_file: cell list parameter not found")
+    evaluated = []
+    for s_ in stmts[:ri or 0]:
+        for x in walk(s_):
+            if x.get("k") == "DeclRefExpr" and x["ref"].get("name") == plist[0]["name"] and x["ref"].get("dk") == "ParmVar":
+                par = fi.parent.get(id(x), (None, None))[0]
+                while par is not None and par.get("k") in ("ImplicitCastExpr", "ParenExpr"):
+                    par = fi.parent.get(id(par), (None, None))[0]
+                up = fi.parent.get(id(par), (None, None))[0] if par is not None else None
+                if par is not None and par.get("k") == "MemberExpr" and up is not None and up.get("callee", "").split("::")[-1] in ("size", "empty"):
+                    continue
+                if up is not None and up.get("callee", "").split("::")[-1] in ("size", "empty") or (par is not None and par.get("callee", "").split("::")[-1] in ("size", "empty")):
+                    continue
+                evaluated.append(x)
+    if ri is not None and not evaluated:
+        rep.ok("C16.compact-before-count", prog, wfile, reb[0], "rebase of every cell is the first thing evaluated on the cells: the counts, offsets and coordinates are taken afterwards")
+    else:
+        x = evaluated[0] if evaluated else None
+        rep.violation("C16.compact-before-count", prog, wfile, x, "the cell list is used before the cells are compacted",
+                      "write_cell_data_file (line %s) reads %s from the cells before cell::rebase() has removed their unused node/face slots: the declared POINTS count and the node-id offsets of the later cells no longer agree with the coordinates written afterwards" % (x.get("l") if x else "?", "the cell list"))
+
+
+def no_narrowing(rep, prog):
+    wp = [f for f in prog.fns("mesh_writer::write_point_data") if isinstance(f.get("body"), dict)]
+    n_ok = 0
+    for f in wp:
+        for n in walk(f["body"]):
+            if n.get("k") == "CallExpr" and n.get("callee") == "format_number":
+                a = call_args(n)[0]
+                narrowing = [x for x in walk(a) if x.get("k") in ("CXXStaticCastExpr", "CStyleCastExpr", "CXXFunctionalCastExpr", "ImplicitCastExpr") and x.get("t") in ("float", "int", "long", "unsigned int", "short")]
+                if narrowing or strip(a).get("t", "").replace("const ", "") != "double":
+                    rep.violation("C16.no-narrowing", prog, f, n, "coordinate converted to %s before it is written" % (narrowing[0].get("t") if narrowing else strip(a).get("t")),
+                                  "write_point_data formats %s: the coordinate is narrowed before it is written, values outside that type's range become inf/0 and the file does not read back as the same tissue" % render(a))
+                else:
+                    n_ok += 1
+                    rep.ok("C16.no-narrowing", prog, f, n, "format_number receives the double coordinate %s" % render(a))
+    if not n_ok and not any(i["rule"] == "C16.no-narrowing" for i in rep.instances):
+        raise AnalysisBroken("write_point_data: no format_number call found")
+
+
+LETTER_CLASS = re.compile(r"^\(*\[A-Z(a-z)?_?\]\)*(\{\d+,\d*\})?$")
+
+
+def array_extent(rep, prog, sections, warr):
+    # the writer wraps arrays: a newline is emitted inside the per-value loop of the data arrays
+    wraps = any(x.get("k") == "StringLiteral" and "\n" in x.get("v", "") for l in walk(warr["body"]) if l.get("k") == "ForStmt" for x in walk(l["body"]))
+    for key, fn in sections:
+        rx = regexes(fn)
+        hdr = [(nm, pat, node) for nm, (pat, node) in rx.items() if (pat.startswith(key + " ") or (key == "ell_type_id" and key in pat[:20]))]
+        if not hdr:
+            rep.violation("C16.array-extent", prog, fn, None, "header regex for %s not found" % key, "reader function %s has no header regex for section %s" % (fn["qn"], key))
+            continue
+        fi = prog.index(fn)
+        hnode = hdr[0][2]
+        # terminators: letter-class regexes declared after the header regex and used in a regex_search whose match position is read
+        terms = []
+        for nm, (pat, node) in rx.items():
+            if LETTER_CLASS.match(pat) and fi.order[id(node)] > fi.order[id(hnode)]:
+                used = [c for c in walk(fn["body"]) if is_call(c) and c.get("callee", "").startswith("std::regex_search") and any(x.get("k") == "DeclRefExpr" and x["ref"].get("did") == node.get("did") for x in walk(c))]
+                if used:
+                    terms.append((fi.order[id(node)], nm, pat, node))
+        terms.sort()
+        # the first terminator after this header and before the next header regex
+        later_hdrs = [fi.order[id(nd)] for nm, (pat, nd) in rx.items() if fi.order[id(nd)] > fi.order[id(hnode)] and re.match(r"^(\[C\|c\]|[A-Z]{4,})", pat)]
+        bound = min(later_hdrs) if later_hdrs else 10 ** 9
+        mine = [t for t in terms if t[0] < bound]
+        if mine:
+            rep.ok("C16.array-extent", prog, fn, mine[0][3], "%s array ends at the next keyword: regex %r searched in the text after the header%s" % (key, mine[0][2], " (the writer wraps arrays over lines)" if wraps else ""))
+        else:
+            rep.violation("C16.array-extent", prog, fn, hnode, "%s array not delimited by the next keyword" % key,
+                          "%s extracts the %s array without searching for the next keyword (a letter) after the header: the writer wraps arrays over several lines (a newline every few values), so any line-based end truncates the array" % (fn["qn"], key))
